@@ -27,7 +27,25 @@ def norm_r(r):
             'meths': sorted(r['meths']), 'name': r['name']}
 
 
-def run_history(rng, ops, probes, verbs, nprobe, e2e=0, last_nprobe=None, last_e2e=None, nverbs=2):
+def wsgi_answer(rr, p, v, pat_of):
+    """The answer to one request observed through Ombott.__call__ (status, Allow, handler, kwargs, hooks fired), in the
+    vocabulary of RouterTrace answers."""
+    c = rr.call(p, v)
+    a = {'path': p, 'verb': v.upper(), 'h': '', 'route': [], 'params': [], 'allow': [], 'hooks': []}
+    if c['status'] == 404:
+        a['k'] = '404'
+    elif c['status'] == 405:
+        a['k'] = '405'
+        a['allow'] = c['allow'].split(',') if c['allow'] else []
+    elif c['status'] == 200 and c['h'] is not None:
+        a.update(k='ok', h=c['h'], route=pat_of.get(c['h'], []), params=c['kw'],
+                 hooks=[[len(prefix) - 1, pat] for pat, prefix in c['fired']])
+    else:
+        a['k'] = 'status%s' % c['status']
+    return a
+
+
+def run_history(rng, ops, probes, verbs, nprobe, e2e=0, last_nprobe=None, last_e2e=None, nverbs=2, wsgi_last=False):
     """Apply ops to a fresh real router; after each op record state and sampled probe answers."""
     rr = rl.RealRouter(rng)
     out = []
@@ -46,6 +64,8 @@ def run_history(rng, ops, probes, verbs, nprobe, e2e=0, last_nprobe=None, last_e
         for p in sample:
             for v in (verbs if len(verbs) <= nverbs else rng.sample(verbs, nverbs)):
                 a = rr.resolve(p, v.upper())
+                if a.get('k') == 'unobservable':
+                    continue
                 a.update({'path': p, 'verb': v.upper()})
                 a.setdefault('h', '')
                 a.setdefault('route', [])
@@ -54,6 +74,27 @@ def run_history(rng, ops, probes, verbs, nprobe, e2e=0, last_nprobe=None, last_e
                 a.setdefault('hooks', [])
                 a.pop('allow_raw', None)
                 ans.append(a)
+        if wsgi_last and idx == len(ops) - 1:
+            # the same questions asked through the WSGI entry point, with "not found" handlers bound to sub-trees
+            # (Ombott.error(404, rule)): they answer for paths NO route matches and never change a 200 or a 405
+            from ombott import HTTPError
+            pat_of = {}
+            for op2 in ops:
+                r2 = op2.get('r')
+                if isinstance(r2, dict) and r2.get('id') and op2['op'] == 'add':
+                    pat_of[r2['id']] = norm_r(r2)['pat']
+            lits = sorted({tuple(op2['r']['pat'][:i]) for op2 in ops if op2['op'] == 'add' for i, c in enumerate(op2['r']['pat'])
+                           if c == 47 and TOKEN not in op2['r']['pat'][:i] and i > 0})
+            for pre in lits[:3]:
+                try:
+                    rr.app.error(404, '/' + rl.l2s(list(pre)))(lambda prefix, values: HTTPError(404, 'nothing here below ' + prefix))
+                except Exception:   # noqa -- registration of the auxiliary handler is not what is being judged
+                    pass
+            for p in sample:
+                if TOKEN in p or 10 in p or 13 in p or not p:
+                    continue
+                for v in verbs:
+                    ans.append(wsgi_answer(rr, p, v, pat_of))
         o['ans'] = ans
         o.pop('flavour', None)
         o.pop('spelled', None)
@@ -64,6 +105,8 @@ def run_history(rng, ops, probes, verbs, nprobe, e2e=0, last_nprobe=None, last_e
             if TOKEN in p or 10 in p or not p:
                 continue
             a = rr.resolve(p, v.upper())
+            if a.get('k') == 'unobservable':
+                continue
             c = rr.call(p, v)
             exp_status = {'404': 404, '405': 405}.get(a['k'])
             ok = True
@@ -184,7 +227,12 @@ def rand_universe(rng, n, with_methods=False):
                 names.append('m%d' % len(names))
             else:
                 pat.append(TOKEN)
-                filters.append({'wild': 'None', 'int': 'int(None)', 'float': 'float(None)', 're': 're(to.)', 'rel': 're([a-z]+)'}[kind])
+                f = {'wild': 'None', 'int': 'int(None)', 'float': 'float(None)', 're': 're(to.)', 'rel': 're([a-z]+)'}[kind]
+                if kind == 're' and rng.random() < 0.4:
+                    f = 're(^to.)'
+                if kind == 'rel' and rng.random() < 0.4:
+                    f = 're(\\b[a-z]+)'
+                filters.append(f)
                 names.append(rng.choice(['', 'x', 'y', 'name', 'n%d' % len(names)]) if kind != 'wild' or True else '')
         if rng.random() < 0.12:
             # path filter: its argument is the literal that follows
@@ -230,6 +278,9 @@ def rand_history(rng, uni, n, kinds):
             ops.append({'op': 'remove_obj?', 'r': r})
         elif k == 'remove_prefix':
             pre = r['pat'][:rng.randint(1, max(1, len(r['pat'])))]
+            if rng.random() < 0.3 and pre and pre[-1] not in (47, TOKEN):
+                # a prefix that matches no rule but shares the beginning of an edge with one: nothing may be removed
+                pre = pre[:-1] + [rng.choice([120, 98, 97, 49])]
             if TOKEN not in pre:
                 ops.append({'op': 'remove_prefix', 'pre': pre})
         elif k == 'remove_method':
@@ -383,6 +434,10 @@ def run(chk, pid):
                    {'op': 'remove_method', 'pat': r['pat'], 'meth': rng.choice(r['meths'] + r2['meths'])},
                    {'op': 'add', 'r': r, 'ow': True, 'spelled': r.get('meths_spelled')},
                    {'op': 'add', 'r': r2, 'ow': False, 'spelled': r2.get('meths_spelled')}]
+            if r['names'] and any(r['names']):
+                # the same pattern and verbs registered again under other wildcard names: the handler that answers gets ITS names
+                r3 = dict(r, id=r['id'] + 'w', names=[(n + 'w') if n else n for n in r['names']], name='')
+                ops += [{'op': 'add', 'r': r3, 'ow': True, 'spelled': r3.get('meths_spelled')}]
             ops += rand_history(rng, uni, 3, ['add', 'remove_method', 'remove_rule'])
         elif tmpl == 1 and named:    # names: removal by prefix / rule / name and re-use of the name
             r = rng.choice(named)
@@ -411,7 +466,7 @@ def run(chk, pid):
         if len(probes) > 10:
             probes = rng.sample(probes, 10)
         dverbs = ['GET', 'HEAD', 'POST', 'PUT', 'PURGE']
-        t, bad = run_history(rng, ops2, probes, dverbs, len(probes), e2e=0, nverbs=len(dverbs))
+        t, bad = run_history(rng, ops2, probes, dverbs, len(probes), e2e=0, nverbs=len(dverbs), wsgi_last=True)
         traces.append(t)
         e2e_bad += bad
         chk.count(1, ('dense', json.dumps([strip_op(o) for o in t])[:600]))
